@@ -332,6 +332,12 @@ def gen_gate_tasks(seed: int, tier: str) -> List[Dict[str, Any]]:
         rs = core.derive(seed, PROP, "truncate", i)
         tasks.append({"kind": "truncation", "run_seed": rs, "frac": (i + 0.5) / n_cut, "plugin": gw.PLUGINS[i % 4], "position": "second" if i % 3 == 2 else "single",
                       "sub_seed": core.derive(seed, PROP, "truncate-model") % 2**40, "prepopulate": i % 3})
+    # undeclared top-level keys under every spelling of the pool (`$schema`, `$comment`, `version`, …)
+    top = next(i for i, c in enumerate(classes) if c[0] == "MetaModel" and c[1] == "additionalProperties")
+    for i in range(14 if tier == "quick" else 60):
+        rs = core.derive(seed, PROP, "gate-topkey", i)
+        tasks.append({"kind": "gate_class", "run_seed": rs, "cls": list(classes[top]), "plugin": gw.PLUGINS[i % 4], "position": ["single", "first", "second"][i % 3],
+                      "sub_seed": core.derive(rs, "sub") % 2**40, "prepopulate": i % 3})
     # several violations at once, counts around powers of two (exit statuses wrap at 256)
     counts = [2, 3, 255, 256, 257, 512] if tier == "quick" else [2, 3, 7, 64, 127, 128, 129, 255, 256, 257, 511, 512, 513, 768, 1024, 4096]
     for i, n in enumerate(counts):
